@@ -26,7 +26,8 @@ SOURCES = [
     {"kind": "xkey", "k": 0x5D2A1C3B4E5F60718293A4B5C6D7E8F900112233445566778899AABBCCDDEEFF, "chain": "3c" * 32, "depth": 3, "index": hd.H + 7, "pfp": "0badcafe"},
 ]
 NETS = [False, True]
-INTERVALS = [[0, 2], [0, 0], [0, 1], [5, 6], [0, 3], [7, 7], [3, 1], [H - 2, H], [H - 1, H]]
+# [0,12] and [95,105]: more than ten rows / a change in the number of digits of the index (row order must stay numeric)
+INTERVALS = [[0, 2], [0, 0], [0, 1], [5, 6], [0, 3], [7, 7], [3, 1], [H - 2, H], [H - 1, H], [0, 12], [95, 105]]
 
 
 def accounts(ctx):
@@ -210,7 +211,7 @@ class SameMasterHistories:
 
 
 def execute(case):
-    if "hist" in case and case.get("layer") == "two-wallets-same-master":
+    if "hist" in case and case.get("layer", "").startswith("two-wallets-same-master"):
         r = isolated(SameMasterHistories().run, case["hist"])
         for v in r["viols"]:
             v["case"] = case
@@ -247,4 +248,10 @@ def run(ctx):
     ctx.product("generate-vs-reference", cases, execute, chunk=1)
     bfs(ctx, "wallet-object-histories", WalletHistories(), 3 if ctx.thorough else 2, chunk=1)
     bfs(ctx, "two-wallets-same-master", SameMasterHistories(), 2, chunk=1)
+    from ..bfs import eviction_probe
+    eviction_probe(ctx, "wallet-object-histories+account-revisits", WalletHistories(), lambda i: ["gen", i, [0, 1]],
+                   sizes=(1, 2, 3, 4, 5, 8) if ctx.thorough else (1, 2, 3, 4), chunk=1)
+    if ctx.thorough:
+        from ..bfs import long_histories
+        long_histories(ctx, "wallet-object-histories+long", WalletHistories(), rotations=2, rounds=1, chunk=1)
     return {"sources": len(SOURCES), "accounts": accts, "intervals": INTERVALS, "deviation_bound": None if ctx.thorough else 2}
